@@ -882,7 +882,8 @@ pub fn run_check(tier_name: &str, seed: u64, verif_dir: &str) -> Outcome {
             "rule": "one evaluation = one call of mamba::mamba_to_python (real code) on a simulated thread whose hash keys, stub-directory order, clock, pid, earlier jobs, thread placement and (in concurrent rounds) interleaving at intercepted libc calls were decided by the seed; compared with the canonical run of the same program (keys 0, sorted directory, fresh process). distinct_nontrivial counts distinct (program digest, hash-order fingerprint of the job's thread at job start) pairs among the non-canonical jobs.",
             "samples": [sample],
             "scenarios": scenarios.len(),
-            "programs": {"corpus": samples.len() * 2, "compositions": kinds.iter().filter(|k| **k == "composition").count(), "generated": kinds.iter().filter(|k| **k == "generated").count()},
+            "programs": programs.len(),
+            "program_pool": {"corpus": samples.len() * 2, "compositions": kinds.iter().filter(|k| **k == "composition").count(), "generated": kinds.iter().filter(|k| **k == "generated").count()},
             "generated_accepted": format!("{}/{}", gen_accept.0, gen_accept.1),
             "compositions_accepted": format!("{}/{}", comp_accept.0, comp_accept.1),
             "fenced_by_open_findings": {"features": fenced.iter().collect::<Vec<_>>(), "generated_or_composed_skipped": fenced_skipped, "corpus_programs_skipped": fenced_corpus},
